@@ -87,3 +87,21 @@ M("C06", "unique-values-from-sorted", [(NU, "    keep = keep[0: nkeep + 1]\n    
   "values=True returns the first nkeep+1 sorted elements rather than the distinct ones")
 M("C06", "control-rem_dup-ge", [(NU, "            if sflag[i] > f:", "            if sflag[i] >= f:")],
   "picks another index carrying the same maximum flag", control=True)
+
+# ---- C07
+M("C07", "reorder-rest-sorted", [(NU, "    for i in range(original_names.size):\n        name = original_names[i]\n        if name not in new_names:",
+                                  "    for i in np.argsort(original_names):\n        name = original_names[i]\n        if name not in new_names:")],
+  "remaining fields appended sorted by name instead of original order")
+M("C07", "add-ignores-subarray-defaults", [(NU, "        if name in arrnames:\n            arr[name] = val", "        if name in arrnames and arr.dtype[name].shape == ():\n            arr[name] = val")])
+M("C07", "extract-orders-by-request", [(NU, "    new_descr = []\n    for d in arr.dtype.descr:\n        name = d[0]\n        if name in keepnames:\n            new_descr.append(d)\n\n    if len(new_descr) == 0:\n        raise ValueError(\"No fields kept\")",
+                                        "    dd = dict((d[0], d) for d in arr.dtype.descr)\n    new_descr = [dd[n] for n in keepnames if n in dd]\n\n    if len(new_descr) == 0:\n        raise ValueError(\"No fields kept\")")])
+M("C07", "remove-drops-byteorder", [(NU, "        if name not in rmnames:\n            new_descr.append(d)", "        if name not in rmnames:\n            new_descr.append((d[0], d[1].replace('>', '<')) + tuple(d[2:]))")],
+  "retained big-endian fields come back little-endian (values equal, declared order and bytes differ)")
+M("C07", "extract-nonstrict-keeps-nothing-silently", [(NU, "    if len(new_descr) == 0:\n        raise ValueError(\"No fields kept\")", "    if len(new_descr) == 0 and strict:\n        raise ValueError(\"No fields kept\")")])
+M("C07", "combine-size-check-first-two", [(NU, "    for arr in arrlist:\n        if arr.size != num:", "    for arr in arrlist[:2]:\n        if arr.size != num:")],
+  "third and fourth arrays are not checked for length")
+M("C07", "extract-returns-view-when-all", [(NU, "    shape = arr.shape\n    new_arr = np.zeros(shape, dtype=new_descr)\n    copy_fields(arr, new_arr)\n    return new_arr\n\n\ndef remove_fields",
+                                            "    if len(new_descr) == len(arrnames):\n        return arr\n    shape = arr.shape\n    new_arr = np.zeros(shape, dtype=new_descr)\n    copy_fields(arr, new_arr)\n    return new_arr\n\n\ndef remove_fields")],
+  "extracting every field returns the input itself, not a new array")
+M("C07", "control-reorder-loop-rewritten", [(NU, "        if name not in new_names:\n            new_names.append(name)\n            new_descr.append(original_descr[i])",
+                                             "        if new_names.count(name) == 0:\n            new_names.append(name)\n            new_descr.append(original_descr[i])")], control=True)
